@@ -276,8 +276,23 @@ partial def parseShape (cs : List Char) : Option (PShape × List Char) :=
 /-- a registry filter as a stage of the generic pipe model (`none` = it panicked) -/
 def stageOf (st : St V) : Pipes.Stage V := PipeRegistry.stageOf V.err st
 
-def sourceOf (e : Expr V) : Pipes.Source V :=
-  { σ := e.compile.src.σ, next := e.compile.src.next, st := e.compile.st }
+def sourceOf : PSrc → Pipes.Source V
+  | .expr e => { σ := e.compile.src.σ, next := e.compile.src.next, st := e.compile.st }
+  | .burst items =>
+    { σ := List (Option V), next := fun l => match l with | [] => (none, []) | o :: r => (o, r), st := items }
+
+/-- the raw answers of the first stage to `k` pulls -/
+def psrcPulls (s : PSrc) (k : Nat) : List (Option V) :=
+  match s with
+  | .expr e => exprPulls e k
+  | .burst items => (List.range k).map (fun i => (items[i]?).getD none)
+
+def parsePSrc (s : String) : Option PSrc :=
+  if s.startsWith "burst[" then
+    let inner : String := String.ofList ((s.toList.drop 6).dropLast)
+    if inner.isEmpty then some (.burst []) else
+    ((inner.splitOn ",").mapM (fun t => if t == "-" then some none else (V.parse t).map some)).map .burst
+  else (parseExprStr s).map .expr
 
 def sinkOf (k : Sk V) : Pipes.Sink V (Option (List V)) :=
   { σ := Sk V, sink := Sk.sink, fin := Sk.finalize, st := k }
@@ -288,7 +303,7 @@ def toShape (leaves : List (St V)) : PShape → Option (Pipes.Shape V)
   | .pipe a b => do pure (.pipe (← toShape leaves a) (← toShape leaves b))
   | _ => none
 
-def toSShape (leaves : List (St V)) (e : Expr V) : PShape → Option (Pipes.SShape V)
+def toSShape (leaves : List (St V)) (e : PSrc) : PShape → Option (Pipes.SShape V)
   | .src => some (.src (sourceOf e))
   | .unit i => (toSShape leaves e i).map .unit
   | .pipe a b => do pure (.pipe (← toSShape leaves e a) (← toShape leaves b))
@@ -313,7 +328,7 @@ def pipeRunLast (leaves : List (St V)) (shape : PShape) (log : List V) : Option 
   | some sh => (sh.run log).getLast?
   | none => none
 
-def pipePullLast (leaves : List (St V)) (e : Expr V) (shape : PShape) (k : Nat) : Option (Option V) :=
+def pipePullLast (leaves : List (St V)) (e : PSrc) (shape : PShape) (k : Nat) : Option (Option V) :=
   match toSShape leaves e shape with
   | some sh => (sh.pulls k).getLast?
   | none => none
@@ -353,7 +368,7 @@ def stepPipeOp (d : DState) (op : String) (toks impl : List String) : Option (DS
     let (shape, r) ← parseShape ((← kv.get "shape").toList)
     if !r.isEmpty then none else
     let leaves ← parseLeaves (← kv.get "leaves")
-    let source ← match kv.get "source" with | some s => (parseExprStr s).map some | none => some none
+    let source ← match kv.get "source" with | some s => (parsePSrc s).map some | none => some none
     let sink ← match kv.get "sink" with | some s => (mkSink s).map some | none => some none
     let d := (shapeFlags shape).foldl DState.flag
       (d.putPipe (← id.toNat?) { shape := shape, leaves := leaves, source := source, sink := sink })
@@ -378,8 +393,8 @@ def stepPipeOp (d : DState) (op : String) (toks impl : List String) : Option (DS
     let k := p.pulls + 1
     let m ← pipePullLast p.leaves e p.shape k
     -- specification: the source's items pushed through the stages; `none` exactly when the source ends
-    let items := (exprPulls e k).filterMap (fun o => o)
-    let srcAns := ((exprPulls e k).getLast?).getD none
+    let items := (psrcPulls e k).filterMap (fun o => o)
+    let srcAns := ((psrcPulls e k).getLast?).getD none
     let s : Option V := match srcAns with
       | none => none
       | some _ => (seqSpec p.leaves items).getLast?
@@ -406,7 +421,7 @@ def stepPipeOp (d : DState) (op : String) (toks impl : List String) : Option (DS
     let id ← id.toNat?
     let p ← d.getPipe id
     let xs : List V := match p.source with
-      | some e => (exprPulls e p.pulls).filterMap (fun o => o)
+      | some e => (psrcPulls e p.pulls).filterMap (fun o => o)
       | none => p.log
     let e := renderLogs (seqLogs p.leaves xs)
     some (report d op { model := e, impl := implS, kind := "pipe",
